@@ -17,8 +17,10 @@ type SolverCfg struct {
 	Thorough  bool // re-check with all solvers
 	WorkDir   string
 	NoRace    map[string]bool // obligations (known findings) for which the first answer is enough
+	noSplit   bool
 }
 
+var solveSem = make(chan struct{}, 14)
 var solverWins = map[string]int{}
 var solverMu sync.Mutex
 var solverSeconds float64
@@ -38,15 +40,57 @@ func Discharge(s *Session, want func(*Oblig) bool, cfg SolverCfg) {
 	if s.Unsup != "" || s.Trusted {
 		return
 	}
+	// large sessions are split into chunks of obligations checked by separate solver processes
+	var sel []*Oblig
+	for _, ob := range s.Obligs {
+		if want == nil || want(ob) {
+			sel = append(sel, ob)
+		}
+	}
+	const chunk = 40
+	if len(sel) > chunk+20 && !cfg.noSplit {
+		var wg sync.WaitGroup
+		for i := 0; i < len(sel); i += chunk {
+			j := i + chunk
+			if j > len(sel) {
+				j = len(sel)
+			}
+			part := map[*Oblig]bool{}
+			for _, ob := range sel[i:j] {
+				part[ob] = true
+			}
+			wg.Add(1)
+			go func() {
+				defer wg.Done()
+				c2 := cfg
+				c2.noSplit = true
+				Discharge(s, func(ob *Oblig) bool { return part[ob] }, c2)
+			}()
+		}
+		wg.Wait()
+		return
+	}
 	script, order := s.script(want, cfg.TimeoutMs, false)
 	if len(order) == 0 {
 		return
 	}
+	solveSem <- struct{}{}
+	released := false
+	release := func() {
+		if !released {
+			released = true
+			<-solveSem
+		}
+	}
+	defer release()
 	t0 := time.Now()
 	ctx, cancel := context.WithTimeout(context.Background(), time.Duration(cfg.TimeoutMs*len(order)+20000)*time.Millisecond)
 	out, _ := runCmd(ctx, script, "z3", "-in", "-smt2")
 	cancel()
 	el := time.Since(t0)
+	if os.Getenv("VERIF_DEBUG") != "" && el > 8*time.Second {
+		fmt.Fprintf(os.Stderr, "slow session %s: %d obligations %.1fs\n", s.Func, len(order), el.Seconds())
+	}
 	solverMu.Lock()
 	solverSeconds += el.Seconds()
 	solverMu.Unlock()
@@ -84,6 +128,7 @@ func Discharge(s *Session, want func(*Oblig) bool, cfg SolverCfg) {
 		}
 		return
 	}
+	release()
 	var wg sync.WaitGroup
 	sem := make(chan struct{}, 4)
 	for i, ob := range order {
